@@ -1,4 +1,13 @@
-"""Engine G: property-specific lints (DESIGN 4.6)."""
+"""Engine G: property-specific lints (DESIGN 4.6).
+
+Soundness audit.  Every lint returns FACTS that the props files turn into VIOLATED verdicts ("written through an alias", "read but
+never defined", "not refreshed", "stuck", "stale").  Each fact rests on assumptions about constructs the lint does or does not
+model; they are written next to the place that produces the fact (`# AUDIT:`) and CHECKED there.  The result lists keep their shape
+(the props files unpack them as before) and hold the ESTABLISHED facts only; whatever could be a finding but rests on an assumption
+that was not established is kept apart in the attribute `.undecided` of the returned list (entries: the same tuple + a reason), for
+the caller to report as UNDECIDED.  `stuck_iterations` keeps every candidate path in its list (its one caller re-examines them) and
+marks each with `.verdict` (False: established, None: undecided) and `.why`.
+"""
 from __future__ import annotations
 
 import ast
@@ -8,109 +17,662 @@ from .core import src, parent, AnalysisError
 VIEW_METHODS = {"reshape", "transpose", "view", "ravel", "squeeze"}
 MUTATING_METHODS = {"pop", "append", "extend", "insert", "remove", "sort", "reverse", "clear", "popitem", "update", "setdefault", "fill"}
 COPY_CALLS = {"copy", "flatten", "astype", "array", "zeros_like", "empty_like"}
+# methods that exist on list / dict / set / deque and NOT on numpy arrays: a receiver they are called on is no array
+_CONTAINER_ONLY = {"pop", "append", "extend", "insert", "remove", "reverse", "clear", "popitem", "update", "setdefault"}
+_ARRAY_ATTRS = {"shape", "T", "dtype", "ndim", "size", "flat", "real", "imag", "strides", "itemsize", "nbytes"}
+_ARRAY_METHODS = {"fill", "reshape", "astype", "ravel", "flatten", "transpose", "squeeze", "swapaxes", "view", "dot", "sum", "mean", "max",
+                  "min", "argmax", "argmin", "cumsum", "tolist", "conj", "round", "clip", "any", "all", "nonzero", "take", "repeat"}
+_ARRAY_CTORS = {"empty", "zeros", "ones", "full", "array", "asarray", "ascontiguousarray", "linspace", "arange", "empty_like", "zeros_like",
+                "ones_like", "full_like", "eye", "identity", "meshgrid", "concatenate", "stack", "hstack", "vstack", "tile", "repeat", "outer",
+                "diff", "cumsum", "copy", "frombuffer", "fromiter", "ndarray", "logspace",
+                "atleast_1d", "atleast_2d", "roll", "where", "transpose"}
+_ELEMENTWISE = {"cos", "sin", "tan", "exp", "sqrt", "log", "abs", "real", "imag", "conj", "square", "negative", "floor", "ceil", "mod", "fmod"}
+_NP = ("np", "numpy")
 
 
-def shared_state_mutations(fn: ast.FunctionDef, shared_pred):
+class Findings(list):
+    """established findings; `.undecided`: possible findings whose assumptions were not established (same tuple + reason)"""
+
+    def __init__(self, items=(), undecided=()):
+        super().__init__(items)
+        self.undecided = list(undecided)
+
+
+# ======================================================================================================================
+# G2: writes through aliases of shared state
+# ======================================================================================================================
+def _scope_of(node):
+    """(enclosing class or None, module or None) through the parent links, when the tree is linked"""
+    cls = mod = None
+    n = parent(node)
+    while n is not None:
+        if isinstance(n, ast.ClassDef) and cls is None:
+            cls = n
+        if isinstance(n, ast.Module):
+            mod = n
+        n = parent(n)
+    return cls, mod
+
+
+_ARRAY_RETURNING = {"solve", "solve_banded", "solveh_banded", "inv", "pinv", "fft", "ifft", "rfft", "irfft", "spsolve", "solve_triangular"}
+
+
+def _value_kind(v, mod=None):
+    """kind of object an expression evaluates to: 'array' / 'list' / 'dict' / 'set' / 'tuple' / 'scalar' / None (not known)"""
+    if isinstance(v, (ast.List, ast.ListComp)):
+        return "list"
+    if isinstance(v, (ast.Dict, ast.DictComp)):
+        return "dict"
+    if isinstance(v, (ast.Set, ast.SetComp)):
+        return "set"
+    if isinstance(v, ast.Tuple):
+        return "tuple"
+    if isinstance(v, ast.Constant):
+        return "scalar" if isinstance(v.value, (int, float, complex, bool, str, bytes)) else None
+    if isinstance(v, ast.BinOp) and isinstance(v.op, ast.Mult) and (isinstance(v.left, ast.List) or isinstance(v.right, ast.List)):
+        return "list"
+    if isinstance(v, ast.BinOp) and not isinstance(v.op, ast.MatMult):
+        ks = {_value_kind(v.left, mod), _value_kind(v.right, mod)}
+        return "array" if "array" in ks and not ks & {"list", "dict", "set", "tuple"} else None
+    if isinstance(v, ast.UnaryOp):
+        return _value_kind(v.operand, mod) if _value_kind(v.operand, mod) == "array" else None
+    if isinstance(v, ast.Subscript) and _min_ndim(v) >= 1:
+        return "array"          # `x[:, None]`, `x[a:b, c:d]`: tuple subscripts with slices exist for arrays only
+    if isinstance(v, ast.Call):
+        f = v.func
+        if isinstance(f, ast.Name):
+            k = {"list": "list", "sorted": "list", "dict": "dict", "set": "set", "tuple": "tuple", "defaultdict": "dict", "OrderedDict": "dict",
+                 "deque": "list", "int": "scalar", "float": "scalar", "len": "scalar", "bool": "scalar", "str": "scalar",
+                 "frozenset": "tuple"}.get(f.id)
+            if k:
+                return k
+            if f.id in _ARRAY_RETURNING and mod is not None and any(
+                    isinstance(i, ast.ImportFrom) and (i.module or "").split(".")[0] in ("numpy", "scipy")
+                    and any((a.asname or a.name) == f.id for a in i.names) for i in ast.walk(mod)):
+                return "array"
+            return None
+        if isinstance(f, ast.Attribute) and isinstance(f.value, ast.Name) and f.value.id in _NP:
+            if f.attr in _ARRAY_CTORS:
+                return "array"
+            if f.attr in _ELEMENTWISE and v.args:
+                return _value_kind(v.args[0], mod) if _value_kind(v.args[0], mod) == "array" else None
+        if src(f).split(".")[0] in ("np", "numpy", "scipy", "sp", "linalg") and src(f).split(".")[-1] in _ARRAY_RETURNING:
+            return "array"
+        if isinstance(f, ast.Attribute) and f.attr in ("copy", "astype", "reshape", "transpose", "ravel", "flatten"):
+            return _value_kind(f.value, mod) if f.attr == "copy" else "array"
+    return None
+
+
+def _annotation_kind(a):
+    if a is None:
+        return None
+    s = a.value if isinstance(a, ast.Constant) and isinstance(a.value, str) else src(a)
+    s = s.replace(" ", "")
+    if "[:" in s or "ndarray" in s or "NDArray" in s:
+        return "array"
+    low = s.lower()
+    if low.startswith(("list", "typing.list")):
+        return "list"
+    if low.startswith(("dict", "typing.dict")):
+        return "dict"
+    if low.startswith(("tuple", "typing.tuple")):
+        return "tuple"
+    if low in ("int", "float", "bool", "complex", "str"):
+        return "scalar"
+    return None
+
+
+def _root_kind(fn, root: str, scope=None):
+    """kind of the object the shared expression `root` denotes, from the definitions visible to the lint (parameter annotation;
+    every assignment to that expression in the enclosing class / module / function; the returns of a memoised function):
+    a kind only when every definition found has the same known kind, else None"""
+    kinds = []
+    cls, mod = _scope_of(fn)
+    base = root.split("[")[0]
+    if "(" in root:
+        # result of a (memoised) function / method: what its definitions return
+        name = root.split("(")[0].split(".")[-1]
+        tree = scope if scope is not None else mod
+        if tree is None:
+            return None
+        defs = [n for n in ast.walk(tree) if isinstance(n, (ast.FunctionDef, ast.AsyncFunctionDef)) and n.name == name]
+        for d in defs:
+            for r in ast.walk(d):
+                if isinstance(r, ast.Return):
+                    kinds.append(_value_kind(r.value, mod) if r.value is not None else None)
+        return kinds[0] if kinds and all(k == kinds[0] for k in kinds) and kinds[0] is not None else None
+    if "." not in base:
+        for a in fn.args.args + fn.args.kwonlyargs + getattr(fn.args, "posonlyargs", []):
+            if a.arg == base:
+                k = _annotation_kind(a.annotation)
+                if k:
+                    return k
+    trees = [t for t in ((cls if base.startswith("self.") else None), scope, fn if "." not in base else None,
+                         mod if "." not in base else None) if t is not None]
+    for tree in trees[:1] if base.startswith("self.") and cls is not None else trees:
+        for n in ast.walk(tree):
+            tg, val = [], None
+            if isinstance(n, ast.Assign):
+                tg, val = n.targets, n.value
+            elif isinstance(n, ast.AnnAssign) and n.value is not None:
+                tg, val = [n.target], n.value
+                if src(n.target) == base and _annotation_kind(n.annotation):
+                    kinds.append(_annotation_kind(n.annotation))
+                    continue
+            for t in tg:
+                if src(t) == base:
+                    kinds.append(_value_kind(val, mod))
+    if kinds and kinds[0] is not None and all(k == kinds[0] for k in kinds):
+        return kinds[0]
+    return None
+
+
+def _min_ndim(e):
+    """a lower bound of the number of dimensions of the array an expression evaluates to (0: nothing known)"""
+    if isinstance(e, ast.Subscript):
+        elts = e.slice.elts if isinstance(e.slice, ast.Tuple) else [e.slice]
+        kept = sum(1 for x in elts if isinstance(x, ast.Slice) or (isinstance(x, ast.Constant) and x.value is None)
+                   or src(x) in ("np.newaxis", "numpy.newaxis"))
+        return kept if all(isinstance(x, (ast.Slice, ast.Constant)) or src(x) in ("np.newaxis", "numpy.newaxis") for x in elts) else 0
+    if isinstance(e, ast.BinOp) and not isinstance(e.op, ast.MatMult):
+        return max(_min_ndim(e.left), _min_ndim(e.right))
+    if isinstance(e, ast.UnaryOp):
+        return _min_ndim(e.operand)
+    if isinstance(e, ast.Call) and isinstance(e.func, ast.Attribute) and isinstance(e.func.value, ast.Name) and e.func.value.id in _NP:
+        if e.func.attr in ("sqrt", "exp", "sin", "cos", "tan", "abs", "log", "real", "imag", "copy", "ascontiguousarray", "asarray", "negative",
+                           "square", "conj") and e.args:
+            return _min_ndim(e.args[0])
+        if e.func.attr in ("empty", "zeros", "ones", "full", "ndarray") and e.args and isinstance(e.args[0], (ast.Tuple, ast.List)):
+            return len(e.args[0].elts)
+    return 0
+
+
+def _root_min_ndim(fn, root: str) -> int:
+    """lower bound of the dimensions of the stored array `root` (`self.X`), over every definition of it in the class"""
+    cls, mod = _scope_of(fn)
+    base = root.split("[")[0]
+    if cls is None or not base.startswith("self.") or base != root:
+        return 0
+    dims = []
+    for n in ast.walk(cls):
+        if isinstance(n, ast.Assign) and any(src(t) == base for t in n.targets):
+            dims.append(_min_ndim(n.value))
+        elif isinstance(n, (ast.AugAssign, ast.AnnAssign)) and src(n.target) == base:
+            dims.append(0)
+    return min(dims) if dims else 0
+
+
+def _int_names(fn):
+    """local names that hold an integer by construction: counters of range() / first component of enumerate(), parameters annotated
+    int, names assigned from integer literals, len() and integer arithmetic of such"""
+    out = set()
+    for a in fn.args.args + fn.args.kwonlyargs:
+        if a.annotation is not None:
+            s = a.annotation.value if isinstance(a.annotation, ast.Constant) and isinstance(a.annotation.value, str) else src(a.annotation)
+            if s.strip() in ("int", "np.int64", "numpy.int64", "np.intp"):
+                out.add(a.arg)
+    stores = {}
+    for n in ast.walk(fn):
+        if isinstance(n, ast.Name) and isinstance(n.ctx, ast.Store):
+            stores[n.id] = stores.get(n.id, 0) + 1
+
+    def intish(e, names):
+        if isinstance(e, ast.Constant):
+            return type(e.value) is int
+        if isinstance(e, ast.Name):
+            return e.id in names
+        if isinstance(e, ast.UnaryOp) and isinstance(e.op, (ast.USub, ast.UAdd)):
+            return intish(e.operand, names)
+        if isinstance(e, ast.BinOp) and isinstance(e.op, (ast.Add, ast.Sub, ast.Mult, ast.FloorDiv, ast.Mod)):
+            return intish(e.left, names) and intish(e.right, names)
+        if isinstance(e, ast.Call) and isinstance(e.func, ast.Name) and e.func.id in ("len", "int") and not e.keywords:
+            return True
+        return False
+    for _ in range(3):
+        cand = {}
+        for n in ast.walk(fn):
+            if isinstance(n, (ast.For, ast.comprehension)):
+                it, tg = n.iter, n.target
+                if isinstance(it, ast.Call) and isinstance(it.func, ast.Name) and it.func.id == "range" and isinstance(tg, ast.Name):
+                    cand.setdefault(tg.id, []).append(True)
+                elif isinstance(it, ast.Call) and isinstance(it.func, ast.Name) and it.func.id == "enumerate" and isinstance(tg, ast.Tuple) \
+                        and tg.elts and isinstance(tg.elts[0], ast.Name):
+                    cand.setdefault(tg.elts[0].id, []).append(True)
+                    for el in tg.elts[1:]:
+                        for x in ast.walk(el):
+                            if isinstance(x, ast.Name):
+                                cand.setdefault(x.id, []).append(False)
+                else:
+                    for x in ast.walk(tg):
+                        if isinstance(x, ast.Name):
+                            cand.setdefault(x.id, []).append(False)
+            elif isinstance(n, ast.Assign):
+                for t in n.targets:
+                    if isinstance(t, ast.Name):
+                        cand.setdefault(t.id, []).append(intish(n.value, out))
+                    else:
+                        for x in ast.walk(t):
+                            if isinstance(x, ast.Name) and isinstance(x.ctx, ast.Store):
+                                cand.setdefault(x.id, []).append(False)
+            elif isinstance(n, ast.AugAssign) and isinstance(n.target, ast.Name):
+                cand.setdefault(n.target.id, []).append(intish(n.value, out) and isinstance(n.op, (ast.Add, ast.Sub, ast.Mult, ast.FloorDiv, ast.Mod)))
+            elif isinstance(n, (ast.NamedExpr,)) and isinstance(n.target, ast.Name):
+                cand.setdefault(n.target.id, []).append(intish(n.value, out))
+            elif isinstance(n, (ast.With, ast.ExceptHandler)):
+                for x in ast.walk(n):
+                    if isinstance(x, ast.withitem) and x.optional_vars is not None:
+                        for y in ast.walk(x.optional_vars):
+                            if isinstance(y, ast.Name):
+                                cand.setdefault(y.id, []).append(False)
+        new = {k for k, v in cand.items() if v and all(v) and len(v) == stores.get(k, 0)} | out
+        if new == out:
+            break
+        out = new
+    return out, intish
+
+
+def shared_state_mutations(fn: ast.FunctionDef, shared_pred, scope=None):
     """Writes through aliases of shared state.
 
     `shared_pred(expr_src)` says whether an expression denotes shared, stored state
     (e.g. `self._basis.integrals`).  A local becomes an alias when it is assigned the
     shared expression, a slice/view of it, or another alias, without a copy.  Reported:
     subscript stores / augmented assignments through an alias, and calls that receive an
-    alias together with an `overwrite_*=True` flag.  -> list of (node, description)"""
-    aliases: dict[str, str] = {}
-    out = []
+    alias together with an `overwrite_*=True` flag.  -> Findings [(node, description)]; `.undecided`: [(node, description, reason)]
+
+    AUDIT - a finding says "this statement changes the stored object".  It is true when
+      (A1) the name still holds the alias at the statement: every other store to the name (for / with / except targets, walrus,
+           augmented assignment, del, tuple unpacking, a nested def) ends the alias - checked;
+      (A2) the step from the stored object to the alias yields a VIEW of it, not a copy:
+             `X[a:b]`      a view for a numpy array, a copy for a list / tuple / str;
+             `X[i]`        (integer i) a row view of an array or the stored element object of a list / dict; a copy when i is an index
+                           array / mask;
+             `.T .real .imag .flat`, `.transpose() .view() .squeeze()`: array views; `.reshape() .ravel()`: views of a contiguous
+                           array (stored tables are allocated contiguous; not checked, stated in the description);
+             `np.asarray(X)` X itself for an array, a new array for a list;
+           -> the kind of X is taken from evidence (definitions of the expression in the class / module, annotation, array-only
+           attributes and tuple subscripts used on it, container-only methods called on it); the index from `_int_names`;
+           without evidence the finding is UNDECIDED;
+      (A3) the operation changes the object in place: a subscript store always does; `name op= v` does for arrays and lists and
+           REBINDS the name for scalars and tuples; `.pop/.append/...` exist on containers only (so a receiver reached through a slice is
+           a list slice, i.e. a copy: no finding); `overwrite_x=True` lets scipy write into array arguments.
+    """
+    aliases: dict[str, tuple] = {}
+    alias_expr: dict[str, ast.AST] = {}
+    display: dict[int, str] = {}
+    out = Findings()
+    int_names, intish = _int_names(fn)
+    kind_cache: dict[str, object] = {}
+
+    # usage evidence: names / expressions used as arrays (array-only attribute, tuple subscript) or as containers (container-only method)
+    array_used, container_used, subscripted = set(), set(), set()
+    for n in ast.walk(fn):
+        if isinstance(n, ast.Attribute) and (n.attr in _ARRAY_ATTRS or (n.attr in _ARRAY_METHODS and isinstance(parent(n), ast.Call)
+                                                                        and getattr(parent(n), "func", None) is n)):
+            array_used.add(src(n.value))
+        if isinstance(n, ast.Call) and isinstance(n.func, ast.Attribute) and n.func.attr in _ARRAY_METHODS:
+            array_used.add(src(n.func.value))
+        if isinstance(n, ast.Call) and isinstance(n.func, ast.Attribute) and n.func.attr in _CONTAINER_ONLY:
+            container_used.add(src(n.func.value))
+        if isinstance(n, ast.Subscript):
+            subscripted.add(src(n.value))
+            if isinstance(n.slice, ast.Tuple):
+                array_used.add(src(n.value))
+
+    def index_step(sl):
+        """'slice' / 'index' / 'fancy?' and whether the subscript alone shows an array (tuple index)"""
+        elts = sl.elts if isinstance(sl, ast.Tuple) else [sl]
+        nd = isinstance(sl, ast.Tuple)
+        step = "index"
+        for x in elts:
+            if isinstance(x, ast.Slice):
+                if all(p is None or intish(p, int_names) or isinstance(p, (ast.Name, ast.Attribute, ast.BinOp, ast.Call, ast.UnaryOp, ast.Subscript))
+                       for p in (x.lower, x.upper, x.step)):
+                    step = "slice"
+                continue
+            if isinstance(x, ast.Constant) and (x.value is Ellipsis or x.value is None):
+                nd = True
+                continue
+            if intish(x, int_names):
+                continue
+            return "fancy?", nd
+        return step, nd
 
     def root_of(e):
-        """shared root an expression is a view of, or None"""
+        r = _root_of(e)
+        if r is not None and isinstance(e, (ast.Attribute, ast.Subscript, ast.Call)) and shared_pred(src(e)):
+            display[id(e)] = src(e)             # the longest expression the caller's predicate calls shared: shown in the description
+        return r
+
+    def shown(r, e):
+        """the stored expression to quote for the alias / expression `e` with root info `r`"""
+        seen = 0
+        while e is not None and seen < 8:
+            seen += 1
+            if id(e) in display:
+                return display[id(e)]
+            if isinstance(e, ast.Name) and e.id in alias_expr:
+                e = alias_expr[e.id]
+                root_of(e)
+                continue
+            break
+        return r[0]
+
+    def _root_of(e):
+        """(shared root, steps, array evidence) an expression is a view of, or None.  The deepest shared prefix is the root, so that
+        the steps from it to the expression (slice / index / view) are all seen.  steps: 'slice' (of the root object), 'eslice' (slice
+        of an element reached by an index), 'index', 'fancy?', 'reshape', 'asarray', 'dtype'"""
         if isinstance(e, ast.Name):
             if e.id in aliases:
                 return aliases[e.id]
-            return e.id if shared_pred(e.id) else None
-        # only a reference (attribute / element / slice) can denote shared storage; an arithmetic expression is a new value
-        if isinstance(e, (ast.Attribute, ast.Subscript, ast.Call)) and shared_pred(src(e)):
-            return src(e)
+            return (e.id, frozenset(), False, None) if shared_pred(e.id) else None
         if isinstance(e, ast.Subscript):
-            return root_of(e.value)
-        if isinstance(e, ast.Attribute) and e.attr in ("T", "real", "imag", "flat"):
-            return root_of(e.value)
-        if isinstance(e, ast.Call) and isinstance(e.func, ast.Attribute):
+            r = root_of(e.value)
+            if r is not None:
+                step, nd = index_step(e.slice)
+                if step == "slice" and ("index" in r[1] or "eslice" in r[1] or "fancy?" in r[1]):
+                    step = "eslice"
+                    if src(e.value) in array_used:
+                        nd = True
+                return r[0], r[1] | {step}, r[2] or nd, step
+        elif isinstance(e, ast.Attribute) and e.attr in ("T", "real", "imag", "flat"):
+            r = root_of(e.value)
+            if r is not None:
+                return r[0], r[1], True, "view"
+        elif isinstance(e, ast.Call) and isinstance(e.func, ast.Attribute):
             if e.func.attr in VIEW_METHODS:
-                return root_of(e.func.value)
+                r = root_of(e.func.value)
+                if r is not None:
+                    return r[0], r[1] | ({"reshape"} if e.func.attr in ("reshape", "ravel") else set()), True, "view"
             # np.asarray & co. return their argument itself when it already is an array of the right type: a view, not a copy
-            if src(e.func) in ("np.asarray", "np.asanyarray", "np.ascontiguousarray", "numpy.asarray", "np.atleast_1d") and e.args \
+            elif src(e.func) in ("np.asarray", "np.asanyarray", "np.ascontiguousarray", "numpy.asarray", "np.atleast_1d") and e.args \
                     and not any(k.arg == "copy" for k in e.keywords):
-                return root_of(e.args[0])
-            return None
+                r = root_of(e.args[0])
+                if r is not None:
+                    extra = {"asarray"} | ({"dtype"} if (len(e.args) > 1 or any(k.arg == "dtype" for k in e.keywords)) else set())
+                    return r[0], r[1] | extra, r[2], "asarray"
+        # only a reference (attribute / element / slice / call result) can denote shared storage; an arithmetic expression is a new value
+        if isinstance(e, (ast.Attribute, ast.Subscript, ast.Call)) and shared_pred(src(e)):
+            return src(e), frozenset(), False, None
         return None
+
+    def kind_of(root, arr_ev, *exprs):
+        if arr_ev or any(x in array_used for x in exprs) or root in array_used:
+            return "array"
+        if root not in kind_cache:
+            kind_cache[root] = _root_kind(fn, root, scope) or ("array" if _root_min_ndim(fn, root) >= 1 else None)
+        return kind_cache[root]
+
+    ndim_cache: dict[str, int] = {}
+
+    def min_ndim_of(root):
+        if root not in ndim_cache:
+            ndim_cache[root] = _root_min_ndim(fn, root)
+        return ndim_cache[root]
+
+    def depth_of(expr):
+        """number of integer subscripts applied on the way from the root to `expr` (through aliases)"""
+        d = 0
+        while True:
+            if isinstance(expr, ast.Subscript):
+                d += len([x for x in (expr.slice.elts if isinstance(expr.slice, ast.Tuple) else [expr.slice]) if not isinstance(x, ast.Slice)
+                          and not (isinstance(x, ast.Constant) and x.value is None)])
+                expr = expr.value
+            elif isinstance(expr, ast.Name) and expr.id in alias_expr:
+                expr = alias_expr[expr.id]
+            else:
+                return d
+
+    def judge(r, op, expr, meth=None, binop=None):
+        """-> (True: established / None: undecided / 'no': no change of the stored object, reason)"""
+        root, steps, arr_ev, last = r
+        es = src(expr)
+        k = kind_of(root, arr_ev, es)
+        if op == "method" and meth in _CONTAINER_ONLY:
+            # AUDIT: the receiver has a method that only containers (list / dict / set / deque) have.  Reached by `X[k]` it is the element
+            # object stored in X (containers have no index-array subscripts; an element picked out of a shallow copy is still the stored
+            # object); reached by a slice / np.asarray it is a new list / an array (which has no such method): not the stored object
+            if last in ("slice", "eslice", "asarray", "view"):
+                return "no", "a container method on a slice: the receiver is a list slice, a copy"
+            return True, ""
+        if "fancy?" in steps:
+            return None, f"`{es}` is reached through a subscript whose index is not known to be an integer or a slice: an index array / mask gives a copy"
+        if "dtype" in steps:
+            return None, "np.asarray with a dtype returns a copy when the type differs"
+        copyish = steps & {"slice", "asarray"}
+        if "eslice" in steps and k != "array":
+            # a slice of an ELEMENT of the stored object: the element's kind is what matters, and only usage evidence can show it
+            return None, (f"`{es}` is a slice of an element of `{root}`: a view when the element is an array, a copy when it is a list; "
+                          "which it is is not known")
+        if op == "method":
+            if meth == "sort" and copyish and k != "array":
+                return ("no", "slice of a list") if k in ("list", "tuple") else (None, f"`.sort()` on `{es}`, a slice: a view for an array, a copy for a list; which one `{root}` is is not known")
+            return True, ""
+        if op == "aug":
+            container = es in subscripted or root in subscripted or any(a_ in subscripted for a_ in (es,))
+            if k in ("tuple", "scalar"):
+                return "no", "augmented assignment rebinds a name that holds an immutable value"
+            if "index" in steps and k != "array" and not (es in array_used or es in subscripted):
+                return None, (f"`{es}` is an element of `{root}`: `{es} op= ...` changes the stored object only when the element is itself an "
+                              "array / list (a row), not when it is a number")
+            if "index" in steps and not (es in array_used or es in subscripted) and \
+                    not (steps == {"index"} and depth_of(expr) < min_ndim_of(root)):
+                return None, f"`{es}` is `{root}` at an integer index: a row (changed in place) or a number (rebound); which is not known"
+            if copyish and k != "array":
+                return ("no", "slice of a list") if k in ("list", "tuple") else (None, f"`{es}` is a slice: a view for an array, a copy for a list; which one `{root}` is is not known")
+            if k in ("array", "list", "dict", "set"):
+                return True, ""
+            if container and isinstance(binop, (ast.Sub, ast.Div, ast.Pow, ast.MatMult, ast.FloorDiv, ast.Mod, ast.Mult, ast.Add)) \
+                    and not isinstance(binop, (ast.Add, ast.Mult)):
+                return True, ""          # a subscriptable object that supports -=, /=, ...: a numeric array
+            if container:
+                # subscriptable and += / *=: array or list (in place) - or a tuple (rebound), which no visible definition shows
+                return None, f"`{es} op= ...` changes `{root}` in place if it is an array or a list and rebinds the name if it is a tuple: kind not known"
+            return None, f"`{es} op= ...` changes the stored object in place only if `{root}` is mutable (array, list): its kind is not known"
+        # subscript store / overwrite flag
+        if copyish and k != "array":
+            if k in ("list", "tuple", "dict", "set", "scalar"):
+                return "no", "slice / asarray of a list is a copy"
+            return None, f"`{es}` is a slice (or np.asarray) of `{root}`: a view for an array, a copy for a list; which one `{root}` is is not known"
+        return True, ""
+
+    def record(node, desc, r, op, expr, **kw):
+        v, why = judge(r, op, expr, **kw)
+        if v == "no":
+            return
+        if "reshape" in r[1]:
+            desc += " (reshape/ravel of a contiguous array is a view)"
+        if v is True:
+            if not any(x[0] is node and x[1] == desc for x in out):
+                out.append((node, desc))
+        elif not any(x[0] is node and x[1] == desc for x in out.undecided):
+            out.undecided.append((node, desc, why))
+
+    def kill(names):
+        for nm in names:
+            aliases.pop(nm, None)
+
+    def stores_in(node):
+        return {n.id for n in ast.walk(node) if isinstance(n, ast.Name) and isinstance(n.ctx, (ast.Store, ast.Del))}
+
+    def own_exprs(st):
+        """the expressions evaluated by the statement itself (for a compound statement: its header, not its blocks)"""
+        if isinstance(st, (ast.If, ast.While)):
+            roots = [st.test]
+        elif isinstance(st, ast.For):
+            roots = [st.iter]
+        elif isinstance(st, ast.With):
+            roots = [i.context_expr for i in st.items]
+        elif isinstance(st, (ast.Try, ast.FunctionDef, ast.AsyncFunctionDef, ast.ClassDef)):
+            roots = []
+        elif hasattr(ast, "Match") and isinstance(st, getattr(ast, "Match")):
+            roots = [st.subject]
+        else:
+            roots = [st]
+        return roots
+
+    def calls_of(st):
+        return [n for r in own_exprs(st) for n in ast.walk(r) if isinstance(n, ast.Call)]
 
     def visit(stmts):
         for st in stmts:
+            if isinstance(st, (ast.FunctionDef, ast.AsyncFunctionDef, ast.ClassDef)):
+                kill({st.name})
+                if not isinstance(st, ast.ClassDef):
+                    # a nested function sees the aliases of the moment it is defined (closure), except the names it binds itself
+                    saved, saved_e = dict(aliases), dict(alias_expr)
+                    kill({a.arg for a in st.args.args + st.args.kwonlyargs + getattr(st.args, "posonlyargs", [])} |
+                         ({st.args.vararg.arg} if st.args.vararg else set()) | ({st.args.kwarg.arg} if st.args.kwarg else set()))
+                    visit(st.body)
+                    aliases.clear(), aliases.update(saved)
+                    alias_expr.clear(), alias_expr.update(saved_e)
+                continue
             if isinstance(st, ast.Assign):
                 r = root_of(st.value)
                 for t in st.targets:
                     if isinstance(t, ast.Name):
                         if r is not None:
                             aliases[t.id] = r
+                            alias_expr[t.id] = st.value
                         else:
                             aliases.pop(t.id, None)
                     elif isinstance(t, ast.Subscript):
                         rt = root_of(t.value)
                         if rt is not None:
-                            out.append((st, f"store through `{src(t.value)}`, a view of the stored `{rt}`"))
-                    elif isinstance(t, ast.Tuple):
-                        for el in t.elts:
-                            if isinstance(el, ast.Name):
+                            record(st, f"store through `{src(t.value)}`, a view of the stored `{shown(rt, t.value)}`", rt, "store", t.value)
+                    elif isinstance(t, (ast.Tuple, ast.List)):
+                        for el in ast.walk(t):
+                            if isinstance(el, ast.Name) and isinstance(el.ctx, ast.Store):
                                 aliases.pop(el.id, None)
-                            elif isinstance(el, ast.Subscript) and root_of(el.value) is not None:
-                                out.append((st, f"store through `{src(el.value)}`, a view of the stored `{root_of(el.value)}`"))
+                            elif isinstance(el, ast.Subscript) and isinstance(el.ctx, ast.Store) and root_of(el.value) is not None:
+                                record(st, f"store through `{src(el.value)}`, a view of the stored `{shown(root_of(el.value), el.value)}`",
+                                       root_of(el.value), "store", el.value)
             elif isinstance(st, ast.AugAssign):
                 t = st.target
                 base = t.value if isinstance(t, ast.Subscript) else t
                 rt = root_of(base)
                 if rt is not None:
-                    out.append((st, f"in-place update of `{src(base)}`, a view of the stored `{rt}`"))
-            for c in [n for n in ast.walk(st) if isinstance(n, ast.Call)]:
+                    record(st, f"in-place update of `{src(base)}`, a view of the stored `{shown(rt, base)}`", rt,
+                           "store" if isinstance(t, ast.Subscript) else "aug", base, binop=st.op)
+            elif isinstance(st, ast.AnnAssign) and isinstance(st.target, ast.Name):
+                r = root_of(st.value) if st.value is not None else None
+                if r is not None:
+                    aliases[st.target.id] = r
+                else:
+                    aliases.pop(st.target.id, None)
+            elif isinstance(st, ast.For):
+                kill(stores_in(st.target))                       # (A1) the loop target is rebound by the loop
+            elif isinstance(st, ast.With):
+                for i in st.items:
+                    if i.optional_vars is not None:
+                        kill(stores_in(i.optional_vars))
+            elif isinstance(st, ast.Delete):
+                kill(stores_in(st))
+            elif isinstance(st, (ast.Import, ast.ImportFrom)):
+                kill({(a.asname or a.name).split(".")[0] for a in st.names})
+            # (A1) a walrus anywhere in the statement's own expressions rebinds its target
+            for n in (x for c in own_exprs(st) for x in ast.walk(c)):
+                if isinstance(n, ast.NamedExpr) and isinstance(n.target, ast.Name):
+                    kill({n.target.id})
+            for c in calls_of(st):
                 if isinstance(c.func, ast.Attribute) and c.func.attr in MUTATING_METHODS:
                     rt = root_of(c.func.value)
-                    if rt is not None and not (isinstance(st, ast.For) and c is not getattr(st, "iter", None)) or \
-                            (isinstance(c.func, ast.Attribute) and c.func.attr in MUTATING_METHODS and root_of(c.func.value) is not None):
-                        rt = root_of(c.func.value)
-                        if rt is not None and (c, f"`.{c.func.attr}()` modifies `{src(c.func.value)}`, which is the stored `{rt}`") not in out \
-                                and not any(x[0] is c for x in out):
-                            out.append((c, f"`.{c.func.attr}()` modifies `{src(c.func.value)}`, which is the stored `{rt}`"))
+                    if rt is not None and not any(x[0] is c for x in out):
+                        record(c, f"`.{c.func.attr}()` modifies `{src(c.func.value)}`, which is the stored `{shown(rt, c.func.value)}`", rt, "method",
+                               c.func.value, meth=c.func.attr)
                 flags = [k for k in c.keywords if k.arg and k.arg.startswith("overwrite")
                          and isinstance(k.value, ast.Constant) and k.value.value]
                 if flags:
                     for a in list(c.args) + [k.value for k in c.keywords]:
                         rt = root_of(a)
                         if rt is not None:
-                            out.append((c, f"`{flags[0].arg}=True` lets `{src(c.func)}` overwrite `{src(a)}`, which is the stored `{rt}`"))
+                            record(c, f"`{flags[0].arg}=True` lets `{src(c.func)}` overwrite `{src(a)}`, which is the stored `{shown(rt, a)}`",
+                                   rt, "store", a)
             for f in ("body", "orelse", "finalbody"):
                 sub = getattr(st, f, None)
                 if sub and isinstance(sub, list) and isinstance(sub[0], ast.stmt):
                     visit(sub)
+            for h in getattr(st, "handlers", []) or []:
+                if h.name:
+                    kill({h.name})
+                visit(h.body)
+            for case in getattr(st, "cases", []) or []:
+                kill(stores_in(case.pattern))
+                visit(case.body)
     visit(fn.body)
     return out
 
 
+# ======================================================================================================================
+# G1: self.X read but never defined
+# ======================================================================================================================
 def undefined_self_attrs(mod, cls_name: str, extra_defined=()):
-    """G-attr: `self.X` reads in methods of cls with no definition of X in the class (or bases in the same module)"""
+    """G-attr: `self.X` reads in methods of cls with no definition of X in the class (or bases in the same module)
+    -> (reads: Findings [(method, node)], defined names); `reads.undecided`: [(method, node, reason)]
+
+    AUDIT - "read but never defined: AttributeError" assumes that EVERY place that can give an instance the attribute was looked at:
+      * all base classes are in this module (followed transitively); a base defined elsewhere / computed -> UNDECIDED;
+      * the class does not define attributes dynamically: no __getattr__ / __getattribute__ / __setattr__ / __slots__, no `self.__dict__`,
+        `vars(self)`, `setattr(self, ...)`, no class decorator (dataclass & co. generate attributes), no metaclass keyword -> else UNDECIDED;
+      * class-level statements (assignments incl. annotated ones, in any nested if / for / with / try block) define attributes; an
+        annotation without a value declares an attribute that something else is meant to fill -> UNDECIDED;
+      * nobody stores the attribute from outside (`obj.X = ...` on another receiver anywhere in the module) -> else UNDECIDED;
+      * the read is unconditional: not under `hasattr(self, 'X')` / inside a try that catches AttributeError -> else UNDECIDED;
+      * `self` is the instance: the first parameter of a method that is no staticmethod, not rebound in it."""
     cls = mod.cls(cls_name)
     defined = set(extra_defined)
-    classes = [cls]
-    for b in cls.bases:
-        bn = src(b).split(".")[-1]
-        if mod.has(bn):
-            classes.append(mod.cls(bn))
+    classes, foreign, seen = [], [], set()
+    todo = [cls]
+    while todo:
+        c = todo.pop()
+        if id(c) in seen:
+            continue
+        seen.add(id(c))
+        classes.append(c)
+        for b in c.bases:
+            bs = src(b)
+            if bs == "object":
+                continue
+            bn = bs.split(".")[-1]
+            if isinstance(b, (ast.Name, ast.Attribute)) and mod.has(bn) and isinstance(mod.get(bn), ast.ClassDef):
+                todo.append(mod.cls(bn))
+            else:
+                foreign.append(bs)
+    dynamic = []
+    declared = set()
     for c in classes:
-        for st in c.body:
-            if isinstance(st, ast.FunctionDef):
+        if c.decorator_list:
+            dynamic.append(f"class decorator `@{src(c.decorator_list[0])}`")
+        if c.keywords:
+            dynamic.append(f"class keyword `{c.keywords[0].arg}`")
+        # class-level statements, whatever block they sit in (not inside methods / nested classes)
+        stack = list(c.body)
+        while stack:
+            st = stack.pop()
+            if isinstance(st, (ast.FunctionDef, ast.AsyncFunctionDef)):
                 defined.add(st.name)
-            elif isinstance(st, ast.Assign):
-                for t in st.targets:
-                    if isinstance(t, ast.Name):
-                        defined.add(t.id)
+                if st.name in ("__getattr__", "__getattribute__", "__setattr__"):
+                    dynamic.append(f"`{st.name}`")
+                continue
+            if isinstance(st, ast.ClassDef):
+                defined.add(st.name)
+                continue
+            if isinstance(st, ast.AnnAssign) and isinstance(st.target, ast.Name):
+                (defined if st.value is not None else declared).add(st.target.id)
+            elif isinstance(st, (ast.Import, ast.ImportFrom)):
+                defined |= {(a.asname or a.name).split(".")[0] for a in st.names}
+            else:
+                for n in ast.walk(st) if not hasattr(st, "body") else [x for t_ in ([getattr(st, "target", None)] +
+                                                                                     [i.optional_vars for i in getattr(st, "items", [])]) if t_ is not None
+                                                                        for x in ast.walk(t_)]:
+                    if isinstance(n, ast.Name) and isinstance(n.ctx, ast.Store):
+                        defined.add(n.id)
+                        if n.id == "__slots__":
+                            dynamic.append("`__slots__`")
+            for f in ("body", "orelse", "finalbody"):
+                stack.extend(getattr(st, f, []) or [])
+            for h in getattr(st, "handlers", []) or []:
+                stack.extend(h.body)
         for n in ast.walk(c):
             if isinstance(n, ast.Attribute) and isinstance(n.value, ast.Name) and n.value.id == "self" \
                     and isinstance(n.ctx, ast.Store):
@@ -118,21 +680,81 @@ def undefined_self_attrs(mod, cls_name: str, extra_defined=()):
             if isinstance(n, ast.Call) and isinstance(n.func, ast.Name) and n.func.id == "setattr" and n.args \
                     and isinstance(n.args[0], ast.Name) and n.args[0].id == "self":
                 defined.add("*")
-    reads = []
+            if isinstance(n, ast.Attribute) and n.attr == "__dict__":
+                dynamic.append("`__dict__`")
+            if isinstance(n, ast.Call) and isinstance(n.func, ast.Name) and n.func.id == "vars":
+                dynamic.append("`vars(...)`")
+    # attributes stored on another receiver anywhere in the module (`g._x = ...`, `setattr(g, 'x', ...)`)
+    external = set()
+    any_setattr = False
+    for n in ast.walk(mod.tree):
+        if isinstance(n, ast.Attribute) and isinstance(n.ctx, ast.Store) and not (isinstance(n.value, ast.Name) and n.value.id == "self"):
+            external.add(n.attr)
+        if isinstance(n, ast.Call) and isinstance(n.func, ast.Name) and n.func.id == "setattr" and len(n.args) >= 2:
+            if isinstance(n.args[1], ast.Constant) and isinstance(n.args[1].value, str):
+                external.add(n.args[1].value)
+            elif not (isinstance(n.args[0], ast.Name) and n.args[0].id == "self"):
+                any_setattr = True
+    reads = Findings()
     for st in cls.body:
         if isinstance(st, ast.FunctionDef):
+            is_static = any(src(d).split(".")[-1] == "staticmethod" for d in st.decorator_list)
+            first = st.args.args[0].arg if st.args.args else (st.args.posonlyargs[0].arg if getattr(st.args, "posonlyargs", None) else None)
+            self_rebound = any(isinstance(n, ast.Name) and n.id == "self" and isinstance(n.ctx, ast.Store) for n in ast.walk(st)) or \
+                any(isinstance(n, (ast.FunctionDef, ast.Lambda)) and n is not st and any(a.arg == "self" for a in n.args.args) for n in ast.walk(st))
+            guarded = {n.args[1].value for n in ast.walk(st) if isinstance(n, ast.Call) and isinstance(n.func, ast.Name)
+                       and n.func.id in ("hasattr", "getattr") and len(n.args) >= 2 and isinstance(n.args[1], ast.Constant)
+                       and isinstance(n.args[1].value, str)}
+            tries = [t for t in ast.walk(st) if isinstance(t, ast.Try) and any(
+                h.type is None or any(x in src(h.type) for x in ("AttributeError", "Exception", "BaseException")) for h in t.handlers)]
             for n in ast.walk(st):
                 if isinstance(n, ast.Attribute) and isinstance(n.value, ast.Name) and n.value.id == "self" \
                         and isinstance(n.ctx, ast.Load) and n.attr not in defined and "*" not in defined:
-                    reads.append((st, n))
+                    why = None
+                    if foreign:
+                        why = f"{cls_name} inherits from `{foreign[0]}`, which is not defined in this module: its attributes were not followed"
+                    elif dynamic:
+                        why = f"{cls_name} defines attributes dynamically ({dynamic[0]})"
+                    elif n.attr in declared:
+                        why = f"`{n.attr}` is declared at class level (annotation without a value): what fills it was not followed"
+                    elif n.attr in external or any_setattr:
+                        why = f"an attribute `{n.attr}` is stored on an object outside the methods of the class (or through setattr): may be this one"
+                    elif is_static or first != "self" or self_rebound:
+                        why = f"`self` in {st.name} is not known to be the instance"
+                    elif n.attr in guarded:
+                        why = f"{st.name} tests for the attribute with hasattr / getattr"
+                    elif any(any(x is n for b_ in t.body for x in ast.walk(b_)) for t in tries):
+                        why = "the read sits in a try block that catches AttributeError"
+                    elif n.attr.startswith("__") and n.attr.endswith("__"):
+                        why = f"`{n.attr}` is a special attribute provided by the interpreter"
+                    if why is None:
+                        reads.append((st, n))
+                    else:
+                        reads.undecided.append((st, n, why))
     return reads, defined
 
 
+# ======================================================================================================================
+# G4: caches of an attribute are refreshed where the attribute is rebound
+# ======================================================================================================================
 def derived_state_refresh(cls: ast.ClassDef, source_attr: str):
     """G-derived-state: attributes of `cls` whose stored value is computed from `self.<source_attr>`
     (assigned, or filled through a subscript store, in any method) are caches of that attribute.
     Every method that rebinds `self.<source_attr>` must rebind or clear each of them afterwards.
-    -> (derived: {attr: (node, method)}, missing: [(method_node, assign_node, attr)])"""
+    -> (derived: {attr: (node, method)}, missing: Findings [(method_node, assign_node, attr)]); `missing.undecided`: [(.., .., .., reason)]
+
+    AUDIT - "method M rebinds the source and leaves cache A as it was" assumes that every way M can refresh A was looked at:
+      * any store / del of `self.A` after the rebinding (plain, augmented, annotated, tuple, loop or with target) - checked;
+      * `self.A.clear()` - checked; another in-place refill (`self.A[...] = ...`, `.update() / .fill() / ...`) may or may not renew every
+        entry -> UNDECIDED;
+      * a method of the class called after the rebinding that (transitively) stores A - checked (refreshed); a call of a `self.` method
+        that is not defined in the class (inherited) or `setattr(self, ...)` -> UNDECIDED;
+      * a property setter of the source attribute that stores A runs at every rebinding - checked (refreshed);
+      * A was computed BEFORE the rebinding from the very object that becomes the source (`x = new; self.A = f(x); self.S = x`) - checked;
+      * M is an internal helper (`_name`) and every method that calls it refreshes A after the call - checked (refreshed); some do,
+        some do not -> UNDECIDED;
+      * a snapshot (`self.A = self.S`, put back later with `self.S = self.A`) is no cache - checked (not derived).
+      "after" is decided by line number inside one method: a refresh that sits on another branch than the rebinding -> UNDECIDED."""
     s_src = f"self.{source_attr}"
 
     def mentions(e, aliases=()):
@@ -147,6 +769,9 @@ def derived_state_refresh(cls: ast.ClassDef, source_attr: str):
 
     derived = {}
     methods = [st for st in cls.body if isinstance(st, ast.FunctionDef)]
+    by_name = {}
+    for m in methods:
+        by_name.setdefault(m.name, []).append(m)
     for m in methods:
         aliases = {n.targets[0].id for n in ast.walk(m) if isinstance(n, ast.Assign) and isinstance(n.targets[0], ast.Name)
                    and src(n.value) == s_src}
@@ -157,26 +782,388 @@ def derived_state_refresh(cls: ast.ClassDef, source_attr: str):
                         a = self_attr(el)
                         if a and a != source_attr:
                             derived.setdefault(a, (n, m.name))
-    missing = []
+    # a snapshot of the source, put back later, keeps the source of the moment it was taken: not a cache
+    for a, (node, meth) in list(derived.items()):
+        if isinstance(node, ast.Assign) and src(node.value) == s_src and \
+                any(isinstance(n, ast.Assign) and any(src(t) == s_src for t in n.targets) and src(n.value) == f"self.{a}" for n in ast.walk(cls)):
+            del derived[a]
+
+    def stores(fs, a, depth=3, seen=None):
+        """True: a function of `fs` stores self.a (itself or through methods of the class); None: it may (inherited method, setattr)"""
+        seen = set() if seen is None else seen
+        res = False
+        for f_ in fs:
+            if id(f_) in seen:
+                continue
+            seen.add(id(f_))
+            for n in ast.walk(f_):
+                if isinstance(n, ast.Attribute) and isinstance(n.ctx, (ast.Store, ast.Del)) and src(n) == f"self.{a}":
+                    return True
+                if isinstance(n, ast.Call) and isinstance(n.func, ast.Attribute) and n.func.attr == "clear" and src(n.func.value) == f"self.{a}":
+                    return True
+                if isinstance(n, ast.Call) and isinstance(n.func, ast.Attribute) and isinstance(n.func.value, ast.Name) and n.func.value.id == "self":
+                    if n.func.attr in by_name:
+                        if depth > 0:
+                            r = stores(by_name[n.func.attr], a, depth - 1, seen)
+                            if r is True:
+                                return True
+                            res = res or r
+                        else:
+                            res = None
+                    else:
+                        res = None
+                if isinstance(n, ast.Call) and isinstance(n.func, ast.Name) and n.func.id == "setattr" and n.args and src(n.args[0]) == "self":
+                    res = None
+        return res
+
+    setters = [f_ for f_ in by_name.get(source_attr, []) if any(src(d).endswith(".setter") for d in f_.decorator_list)]
+
+    def refresh_in(m, after_line, a):
+        """does `m` renew self.a at or after line `after_line`?  True / False / (None, reason)"""
+        maybe = None
+        for n in ast.walk(m):
+            ln = getattr(n, "lineno", None)
+            if ln is None or ln < after_line:
+                continue
+            if isinstance(n, ast.Attribute) and isinstance(n.ctx, (ast.Store, ast.Del)) and src(n) == f"self.{a}":
+                return True
+            if isinstance(n, ast.Call) and isinstance(n.func, ast.Attribute):
+                recv = n.func.value
+                if src(recv) == f"self.{a}":
+                    if n.func.attr == "clear":
+                        return True
+                    if n.func.attr in MUTATING_METHODS:
+                        maybe = f"`{src(n)[:50]}` changes self.{a} in place: whether every entry is renewed is not followed"
+                elif isinstance(recv, ast.Name) and recv.id == "self":
+                    if n.func.attr in by_name:
+                        r = stores(by_name[n.func.attr], a)
+                        if r is True:
+                            return True
+                        if r is None:
+                            maybe = maybe or f"self.{n.func.attr}() calls code outside the class: whether it renews self.{a} is not followed"
+                    else:
+                        maybe = maybe or f"self.{n.func.attr}() is not defined in the class: whether it renews self.{a} is not followed"
+            if isinstance(n, ast.Call) and isinstance(n.func, ast.Name) and n.func.id == "setattr" and n.args and src(n.args[0]) == "self":
+                maybe = maybe or "setattr(self, ...) may renew it"
+            if isinstance(n, ast.Subscript) and isinstance(n.ctx, ast.Store) and self_attr(n) == a:
+                maybe = maybe or f"`{src(n)[:50]} = ...` refills self.{a} in place: whether every entry is renewed is not followed"
+        return (None, maybe) if maybe else False
+
+    def from_new_source(m, a):
+        new = {n.value.id for n in ast.walk(m) if isinstance(n, ast.Assign) and any(src(t) == s_src for t in n.targets)
+               and isinstance(n.value, ast.Name)}
+        new = {x for x in new if sum(1 for y in ast.walk(m) if isinstance(y, ast.Name) and y.id == x and isinstance(y.ctx, ast.Store)) <= 1}
+        return any(isinstance(n, ast.Assign) and any(src(t) == f"self.{a}" for t in n.targets) and
+                   any(isinstance(x, ast.Name) and x.id in new for x in ast.walk(n.value)) for n in ast.walk(m))
+
+    missing = Findings()
     for m in methods:
+        if m in setters:
+            continue
         rebinds = [n for n in ast.walk(m) if isinstance(n, ast.Assign)
                    and any(isinstance(t, ast.Attribute) and src(t) == s_src for t in n.targets)]
         if not rebinds:
             continue
         last = max(rebinds, key=lambda n: n.lineno)
         for a in derived:
-            ok = False
-            for n in ast.walk(m):
-                if getattr(n, "lineno", 0) < last.lineno:
+            r = refresh_in(m, last.lineno, a)
+            if r is True:
+                continue
+            if from_new_source(m, a):
+                continue
+            if setters:
+                rs = stores(setters, a)
+                if rs is True:
                     continue
-                if isinstance(n, ast.Assign) and any(isinstance(t, ast.Attribute) and src(t) == f"self.{a}" for t in n.targets):
-                    ok = True
-                if isinstance(n, ast.Call) and isinstance(n.func, ast.Attribute) and n.func.attr == "clear" \
-                        and src(n.func.value) == f"self.{a}":
-                    ok = True
-            if not ok:
+                if rs is None and r is False:
+                    r = (None, f"the setter of the `{source_attr}` property calls code that may renew self.{a}")
+            why = r[1] if isinstance(r, tuple) else None
+            if why is None:
+                # a refresh before the last rebinding (another branch / an earlier statement) - line order alone does not decide
+                earlier = refresh_in(m, 0, a)
+                if earlier is True and len(rebinds) > 1:
+                    why = f"self.{a} is stored in {m.name} before the last of {len(rebinds)} rebindings: which rebinding each store follows is not followed"
+            if why is None and m.name.startswith("_") and not (m.name.startswith("__") and m.name.endswith("__")):
+                # an internal helper: do the methods that call it renew the cache after the call?
+                verdicts = []
+                for c_m in methods:
+                    for c in ast.walk(c_m):
+                        if c_m is not m and isinstance(c, ast.Call) and isinstance(c.func, ast.Attribute) and c.func.attr == m.name \
+                                and isinstance(c.func.value, ast.Name) and c.func.value.id == "self":
+                            verdicts.append(refresh_in(c_m, c.lineno, a))
+                if verdicts and all(v is True for v in verdicts):
+                    continue
+                if verdicts and any(v is True or isinstance(v, tuple) for v in verdicts):
+                    why = f"{m.name} is an internal helper; some of its callers renew self.{a} after the call"
+            if why is None:
                 missing.append((m, last, a))
+            else:
+                missing.undecided.append((m, last, a, why))
     return derived, missing
+
+
+# ======================================================================================================================
+# G-progress: iterations that leave the loop-carried state unchanged
+# ======================================================================================================================
+class StuckPath(tuple):
+    """(decisions, terminator) of an iteration path that stores none of the loop-carried names, with
+    `.verdict`: False - established: the state is exactly the names (S1), and the decisions on the path can hold together (S2)
+                None  - not established, see `.why`
+    `.feasible`: True / False / None (S2 alone), `.gaps`: constructs outside the state model (S1)"""
+    verdict = None
+    why = ""
+    feasible = None
+    gaps = ()
+
+
+_PURE_BUILTINS = {"min", "max", "abs", "int", "float", "len", "round", "bool"}
+
+
+def state_model_gaps(loop):
+    """(S1) constructs in the loop that the name-based model of the loop-carried state does not cover -> [description]
+    the loop may contain only names, literals, arithmetic, comparisons and calls of pure builtins; state read from or kept in an object
+    (attribute, element), an iterator, a generator, a foreign call, a nested function, a try / with / for block is outside the model"""
+    gaps = []
+    for n in ast.walk(loop):
+        if isinstance(n, ast.Call):
+            if not (isinstance(n.func, ast.Name) and n.func.id in _PURE_BUILTINS) or n.keywords or any(isinstance(a, ast.Starred) for a in n.args):
+                gaps.append(f"the call `{src(n)[:50]}` (line {n.lineno})")
+        elif isinstance(n, (ast.Attribute, ast.Subscript)):
+            gaps.append(f"`{src(n)[:50]}` (line {n.lineno}): state read from or kept in an object")
+        elif isinstance(n, (ast.NamedExpr, ast.Yield, ast.YieldFrom, ast.Await, ast.Lambda, ast.ListComp, ast.SetComp, ast.DictComp, ast.GeneratorExp,
+                            ast.Starred, ast.Try, ast.With, ast.For, ast.FunctionDef, ast.AsyncFunctionDef, ast.ClassDef, ast.Global, ast.Nonlocal,
+                            ast.Delete, ast.Import, ast.ImportFrom, ast.AsyncFor, ast.AsyncWith)) or \
+                (hasattr(ast, "Match") and isinstance(n, getattr(ast, "Match"))):
+            gaps.append(f"`{src(n).splitlines()[0][:50]}` (line {getattr(n, 'lineno', '?')})")
+    return gaps
+
+
+def _lin(e):
+    """e = base + c with an integer constant c -> (base node or None for a pure number, c); None when not of that form"""
+    if isinstance(e, ast.Constant) and type(e.value) is int:
+        return None, e.value
+    if isinstance(e, ast.UnaryOp) and isinstance(e.op, ast.USub) and isinstance(e.operand, ast.Constant) and type(e.operand.value) is int:
+        return None, -e.operand.value
+    if isinstance(e, ast.BinOp) and isinstance(e.op, (ast.Add, ast.Sub)):
+        if isinstance(e.right, ast.Constant) and type(e.right.value) is int:
+            r = _lin(e.left)
+            if r is None:
+                return None
+            return r[0], r[1] + (e.right.value if isinstance(e.op, ast.Add) else -e.right.value)
+        if isinstance(e.op, ast.Add) and isinstance(e.left, ast.Constant) and type(e.left.value) is int:
+            r = _lin(e.right)
+            if r is None:
+                return None
+            return r[0], r[1] + e.left.value
+        return None
+    if isinstance(e, ast.Name):
+        return e, 0
+    if isinstance(e, ast.Call) and isinstance(e.func, ast.Name) and e.func.id in ("min", "max") and not e.keywords and e.args \
+            and not any(isinstance(a, ast.Starred) for a in e.args):
+        return e, 0
+    return None
+
+
+def _path_dnf(test, taken, ver, variables):
+    """the decision as a disjunction of conjunctions of atoms; None when a part is outside the fragment
+    atoms ('cmp', (var, version), 'le'|'lt'|'ge'|'gt', base key, k): var REL base + k   (base key '' for a number, (name, version) else)
+          ('div', (A, version), (B, version), divisible)"""
+    if isinstance(test, ast.UnaryOp) and isinstance(test.op, ast.Not):
+        return _path_dnf(test.operand, not taken, ver, variables)
+    if isinstance(test, ast.BoolOp):
+        subs = [_path_dnf(v, taken, ver, variables) for v in test.values]
+        if any(s is None for s in subs):
+            return None
+        if isinstance(test.op, ast.And) == taken:
+            out = [[]]
+            for s in subs:
+                out = [a + b for a in out for b in s]
+                if len(out) > 64:
+                    return None
+            return out
+        return [c for s in subs for c in s]
+    if isinstance(test, ast.Constant):
+        return [[]] if bool(test.value) == taken else []
+
+    def mod(e):
+        return (e.left.id, e.right.id) if isinstance(e, ast.BinOp) and isinstance(e.op, ast.Mod) and isinstance(e.left, ast.Name) \
+            and isinstance(e.right, ast.Name) else None
+    if mod(test):                                      # `if M % v:` - true when not divisible
+        A, B = mod(test)
+        return [[("div", (A, ver.get(A, 0)), (B, ver.get(B, 0)), not taken)]]
+    if not isinstance(test, ast.Compare):
+        return None
+    if len(test.ops) > 1:
+        # a < b < c: the conjunction of the links (operands are evaluated once; they are names / arithmetic here)
+        links = [ast.Compare(left=l, ops=[o], comparators=[r]) for l, o, r in zip([test.left] + test.comparators[:-1], test.ops, test.comparators)]
+        return _path_dnf(ast.BoolOp(op=ast.And(), values=links), taken, ver, variables)
+    l, op, r = test.left, test.ops[0], test.comparators[0]
+    for x, y, o in ((l, r, op), (r, l, {ast.Lt: ast.Gt, ast.Gt: ast.Lt, ast.LtE: ast.GtE, ast.GtE: ast.LtE}.get(type(op), type(op))())):
+        if mod(x) and isinstance(y, ast.Constant) and type(y.value) is int:
+            c = y.value
+            A, B = mod(x)
+            if (isinstance(o, ast.Eq) and c == 0) or (isinstance(o, ast.Lt) and c == 1) or (isinstance(o, ast.LtE) and c == 0):
+                return [[("div", (A, ver.get(A, 0)), (B, ver.get(B, 0)), taken)]]
+            if (isinstance(o, ast.NotEq) and c == 0) or (isinstance(o, ast.Gt) and c == 0) or (isinstance(o, ast.GtE) and c == 1):
+                return [[("div", (A, ver.get(A, 0)), (B, ver.get(B, 0)), not taken)]]
+            return None
+    rel = {ast.Lt: "lt", ast.LtE: "le", ast.Gt: "gt", ast.GtE: "ge"}.get(type(op))
+    if rel is None:
+        return None
+    ll, lr = _lin(l), _lin(r)
+    if ll is None or lr is None:
+        return None
+    # bring to  var REL base + k  with var a variable (a name the function stores)
+    if isinstance(ll[0], ast.Name) and ll[0].id in variables:
+        var, base, k = ll[0].id, lr[0], lr[1] - ll[1]
+    elif isinstance(lr[0], ast.Name) and lr[0].id in variables:
+        var, base, k = lr[0].id, ll[0], ll[1] - lr[1]
+        rel = {"lt": "gt", "le": "ge", "gt": "lt", "ge": "le"}[rel]
+    else:
+        return None
+    if not taken:
+        rel = {"lt": "ge", "le": "gt", "gt": "le", "ge": "lt"}[rel]
+    key = (var, ver.get(var, 0))
+
+    def atom(b):
+        if b is None:
+            return ("cmp", key, rel, "", k)
+        if isinstance(b, ast.Name):
+            return ("cmp", key, rel, (b.id, ver.get(b.id, 0)), k)
+        return None
+    if isinstance(base, ast.Call):
+        parts = []
+        for a in base.args:
+            la = _lin(a)
+            if la is None or isinstance(la[0], ast.Call):
+                return None
+            p = ("cmp", key, rel, "" if la[0] is None else (la[0].id, ver.get(la[0].id, 0)), k + la[1])
+            parts.append(p)
+        # v <= min(a, b): both ; v > min(a, b): one of them ; max: the other way round
+        conj = (base.func.id == "min") == (rel in ("le", "lt"))
+        return [parts] if conj else [[p] for p in parts]
+    a = atom(base)
+    return [[a]] if a is not None else None
+
+
+def _conj_status(atoms, variables):
+    """one conjunction: True - satisfiable (integers and reals alike) for suitable values of the free quantities;
+    False - contradictory whatever the quantities are; None - not modelled.  + text"""
+    def show(a):
+        if a[0] == "cmp":
+            b = a[3][0] if a[3] else ""
+            rhs = (b + (f" {'+' if a[4] > 0 else '-'} {abs(a[4])}" if a[4] else "")) if b else str(a[4])
+            sym = {"le": "<=", "lt": "<", "ge": ">=", "gt": ">"}[a[2]]
+            return f"{a[1][0]} {sym} {rhs}"
+        return f"{a[1][0]} % {a[2][0]} {'==' if a[3] else '!='} 0"
+    text = ", ".join(dict.fromkeys(show(a) for a in atoms)) or "no condition"
+    ups, los = {}, {}          # key -> (bound, strict)
+    for a in atoms:
+        if a[0] != "cmp":
+            continue
+        key = (a[1], a[3])
+        if a[2] in ("le", "lt"):
+            cur = ups.get(key)
+            new = (a[4], a[2] == "lt")
+            if cur is None or new[0] < cur[0] or (new[0] == cur[0] and new[1]):
+                ups[key] = new
+        else:
+            cur = los.get(key)
+            new = (a[4], a[2] == "gt")
+            if cur is None or new[0] > cur[0] or (new[0] == cur[0] and new[1]):
+                los[key] = new
+    int_tight = False
+    for key, (lo, ls) in los.items():
+        if key in ups:
+            hi, hs = ups[key]
+            if lo > hi or (lo == hi and (ls or hs)):
+                return False, text                       # contradictory over the reals, hence over the integers
+            # an integer exists in the interval?  (lo, hi] / [lo, hi) / (lo, hi) / [lo, hi] with integer offsets
+            n_int = (hi - (1 if hs else 0)) - (lo + (1 if ls else 0)) + 1
+            if n_int < 1:
+                int_tight = True                          # satisfiable for reals only: not decided (the quantities may be integers)
+    divs = {}
+    for a in atoms:
+        if a[0] == "div" and divs.setdefault((a[1], a[2]), a[3]) != a[3]:
+            return False, text
+    if int_tight:
+        return None, f"`{text}` holds for non-integer values only: whether the quantities are integers is not known"
+    vs = {a[1] for a in atoms if a[0] == "cmp"} | {a[2] for a in atoms if a[0] == "div"}
+    if len(vs) > 1:
+        return None, f"the decisions concern several values ({sorted(v[0] for v in vs)}) whose relation is not modelled"
+    for a in atoms:
+        if a[0] == "cmp" and a[3] and a[3][0] in variables:
+            return None, f"`{show(a)}` compares with the local `{a[3][0]}`, whose value is not modelled"
+        if a[0] == "div" and a[1][0] in variables:
+            return None, f"`{show(a)}` divides the local `{a[1][0]}`, whose value is not modelled"
+    if any(a[0] == "div" for a in atoms):
+        for (var, base), (k, strict) in ups.items():
+            if not base and k - (1 if strict else 0) < 2:
+                return None, f"`{text}`: a value below 2 divides everything / is outside the admissible range"
+    return True, text
+
+
+def path_feasible(loop, dec, variables):
+    """(S2) can the iteration path `dec` be taken?  Joint satisfiability of the loop test, the decisions on the path and what inner
+    `while` loops establish on leaving, over atoms `v REL B + k` (v a local, B a quantity the function does not store, or a number;
+    min / max bounds split) and `M % v == 0 / != 0`.  -> (True, atoms) / (False, why) / (None, what is not modelled).
+    AUDIT: True means the decisions do not exclude each other for suitable values of the local and the free quantities - NOT that the
+    program reaches such a state; the caller's diagnosis has to say 'if this state is reached'."""
+    taken = {id(t): v for t, v in dec}
+    items = []
+
+    def walk(stmts):
+        for st in stmts:
+            if isinstance(st, ast.If):
+                if id(st.test) not in taken:
+                    return None
+                items.append(("dec", st.test, taken[id(st.test)]))
+                r = walk(st.body if taken[id(st.test)] else st.orelse)
+                if r is not True:
+                    return r
+            elif isinstance(st, (ast.Break, ast.Return, ast.Raise)):
+                return None
+            elif isinstance(st, ast.Continue):
+                return "back"
+            else:
+                items.append(("stmt", st))
+        return True
+    if walk(loop.body) not in (True, "back"):
+        return None, "the path could not be replayed statement by statement"
+    ver = {}
+    first = _path_dnf(loop.test, True, ver, variables)
+    if first is None:
+        return None, f"the loop test `{src(loop.test)[:60]}` is outside the modelled fragment"
+    clauses = [first]
+    for it in items:
+        if it[0] == "dec":
+            d = _path_dnf(it[1], it[2], ver, variables)
+            if d is None:
+                return None, f"the decision `{src(it[1])[:60]}` is outside the modelled fragment (comparisons of a local with a free quantity, divisibility tests)"
+            clauses.append(d)
+            continue
+        st = it[1]
+        for nm in {n.id for n in ast.walk(st) if isinstance(n, ast.Name) and isinstance(n.ctx, (ast.Store, ast.Del))}:
+            ver[nm] = ver.get(nm, 0) + 1
+        if isinstance(st, ast.While) and not st.orelse and not any(isinstance(n, (ast.Break, ast.Return)) for n in ast.walk(st)):
+            d = _path_dnf(st.test, False, ver, variables)       # on leaving an inner loop its test is false
+            if d is not None:
+                clauses.append(d)
+    conjs = [[]]
+    for d in clauses:
+        conjs = [a + b for a in conjs for b in d]
+        if len(conjs) > 256:
+            return None, "too many cases"
+    unknown = None
+    for c in conjs:
+        v, text = _conj_status(c, variables)
+        if v is True:
+            return True, text
+        if v is None:
+            unknown = text
+    if unknown is not None:
+        return None, unknown
+    return False, "the decisions on the path contradict each other"
 
 
 def stuck_iterations(loop: ast.While):
@@ -184,7 +1171,14 @@ def stuck_iterations(loop: ast.While):
     without assigning any loop-carried name.  The body is deterministic in its local state, so such a path,
     if feasible, repeats forever.  Nested loops count as (possible) writes of everything they assign, calls with
     side effects (method calls on names, subscript stores) count as progress too - only a definitely state-preserving
-    path is returned.  -> (carried names, [path]) with path = list of (test node, taken: bool) + terminator"""
+    path is returned.  -> (carried names, [StuckPath], number of paths) with path = (list of (test node, taken: bool), terminator)
+
+    AUDIT - "the same iteration repeats forever" follows from "no loop-carried NAME is stored on the path" only when
+      (S1) the names are the whole state of the iteration: nothing it reads lives in an object (attribute, element), an iterator
+           (`next`), a generator, or behind a call - `state_model_gaps(loop)`; any gap -> every path of the loop is UNDECIDED;
+      (S2) the path can be taken: its decisions are jointly satisfiable - `path_feasible`; contradictory -> the path does not exist
+           (dropped); not modelled -> UNDECIDED.
+    Each returned path carries `.verdict` (False: S1 and S2 established; None: not) and `.why`."""
     assigned = set()
     for n in ast.walk(loop):
         if isinstance(n, ast.Name) and isinstance(n.ctx, ast.Store):
@@ -210,20 +1204,25 @@ def stuck_iterations(loop: ast.While):
             for r in reads(st.test):
                 if r in assigned and r not in written:
                     carried.add(r)
-            run(st.body, 0, dec + [(st.test, True)], written, effect, [(stmts, k + 1)] + cont)
-            run(st.orelse, 0, dec + [(st.test, False)], written, effect, [(stmts, k + 1)] + cont)
+            # a walrus in the test stores a name
+            w_t = {n.target.id for n in ast.walk(st.test) if isinstance(n, ast.NamedExpr) and isinstance(n.target, ast.Name)}
+            # (a call in the test is no progress by itself: it is a gap of the state model, see state_model_gaps)
+            run(st.body, 0, dec + [(st.test, True)], written | w_t, effect, [(stmts, k + 1)] + cont)
+            run(st.orelse, 0, dec + [(st.test, False)], written | w_t, effect, [(stmts, k + 1)] + cont)
             return
         if isinstance(st, (ast.Break, ast.Return, ast.Raise)):
             return
         if isinstance(st, ast.Continue):
             paths.append((dec, written, effect, f"continue (line {st.lineno})"))
             return
-        if isinstance(st, (ast.While, ast.For, ast.With, ast.Try)):
+        if isinstance(st, (ast.While, ast.For, ast.With, ast.Try)) or hasattr(st, "body"):
             for r in reads(st):
                 if r in assigned and r not in written:
                     carried.add(r)
             w = {n.id for n in ast.walk(st) if isinstance(n, ast.Name) and isinstance(n.ctx, ast.Store)}
             eff = effect or any(isinstance(n, ast.Call) for n in ast.walk(st))
+            # a nested block that can leave the loop / the function on some path is not followed: the path through it is kept (it may
+            # also fall through), its exits are someone else's paths
             run(stmts, k + 1, dec, written | w, eff, cont)
             return
         rd = set()
@@ -246,6 +1245,8 @@ def stuck_iterations(loop: ast.While):
                 eff = True
         else:
             rd = reads(st)
+            wr |= {n.id for n in ast.walk(st) if isinstance(n, ast.Name) and isinstance(n.ctx, (ast.Store, ast.Del))}
+        wr |= {n.target.id for n in ast.walk(st) if isinstance(n, ast.NamedExpr) and isinstance(n.target, ast.Name)}
         if any(isinstance(n, ast.Call) and isinstance(n.func, ast.Attribute) and isinstance(n.func.value, ast.Name)
                and n.func.value.id not in ("np", "math") for n in ast.walk(st)):
             eff = True
@@ -255,10 +1256,40 @@ def stuck_iterations(loop: ast.While):
         run(stmts, k + 1, dec, written | wr, eff, cont)
 
     run(loop.body, 0, [], frozenset(), False, [])
-    stuck = [(dec, end) for dec, written, effect, end in paths if not effect and not (set(written) & carried)]
+    gaps = state_model_gaps(loop)
+    # the variables of the feasibility argument: every name stored anywhere in the enclosing function (else: in the loop)
+    fn = parent(loop)
+    while fn is not None and not isinstance(fn, (ast.FunctionDef, ast.AsyncFunctionDef)):
+        fn = parent(fn)
+    variables = {n.id for n in ast.walk(fn if fn is not None else loop) if isinstance(n, ast.Name) and isinstance(n.ctx, (ast.Store, ast.Del))}
+    params_stored = fn is not None and bool({a.arg for a in fn.args.args + fn.args.kwonlyargs} & variables)
+    stuck = []
+    for dec, written, effect, end in paths:
+        if effect or (set(written) & carried):
+            continue
+        p = StuckPath((dec, end))
+        p.gaps = tuple(gaps)
+        if gaps:
+            p.feasible, ftext = None, ""
+            p.verdict, p.why = None, (f"the loop holds {gaps[0]}" + (f" and {len(gaps) - 1} more such constructs" if len(gaps) > 1 else "") +
+                                      ": the names are not known to be the whole state of the iteration")
+        else:
+            p.feasible, ftext = path_feasible(loop, dec, variables)
+            if p.feasible is True and not params_stored:
+                p.verdict, p.why = False, f"the decisions on the path can hold together ({ftext})"
+            elif p.feasible is True:
+                p.verdict, p.why = None, "a parameter is changed in the function: the free quantities of the feasibility argument are not free"
+            elif p.feasible is False:
+                p.verdict, p.why = None, f"the path cannot be taken: {ftext}"
+            else:
+                p.verdict, p.why = None, f"cannot decide that the path can be taken: {ftext}"
+        stuck.append(p)
     return carried, stuck, len(paths)
 
 
+# ======================================================================================================================
+# G-memo: in-place changes of memoised results
+# ======================================================================================================================
 CACHE_DECORATORS = ("lru_cache", "cache", "functools.lru_cache", "functools.cache", "cached_property", "functools.cached_property")
 
 
@@ -276,16 +1307,36 @@ def memoised_functions(tree: ast.Module):
 
 def memoised_result_mutations(tree: ast.Module):
     """G-memo: in-place changes of an object returned by a memoised function: the cache hands out the same
-    object to every later caller with the same arguments.  -> [(function, node, description)]"""
+    object to every later caller with the same arguments.  -> (memoised names, Findings [(function, node, description)])
+    AUDIT: (M1) the callee IS the memoised function: calls are matched by name, so every definition of that name in the module must be
+    memoised (a second, plain definition of the name -> UNDECIDED); (M2) the object changed is the cached one (alias rules A1-A3 of
+    shared_state_mutations, with the kind of the result read off the `return` statements of the memoised function)."""
     memo = memoised_functions(tree)
-    out = []
+    out = Findings()
     if not memo:
         return memo, out
+    ambiguous = set()
+    for n in ast.walk(tree):
+        if isinstance(n, (ast.FunctionDef, ast.AsyncFunctionDef)) and n.name in memo:
+            if not any(src(d.func if isinstance(d, ast.Call) else d) in CACHE_DECORATORS for d in n.decorator_list):
+                ambiguous.add(n.name)
+
     def pred(s_):
         return any(s_.startswith(m + "(") or s_.startswith("self." + m + "(") or s_ == "self." + m for m in memo)
     for fn in [n for n in ast.walk(tree) if isinstance(n, ast.FunctionDef)]:
-        for node, desc in shared_state_mutations(fn, pred):
-            out.append((fn, node, desc.replace("the stored", "the memoised result")))
+        # a local or parameter named like the memoised function hides it
+        shadow = {a.arg for a in fn.args.args + fn.args.kwonlyargs} | {n.id for n in ast.walk(fn) if isinstance(n, ast.Name) and isinstance(n.ctx, ast.Store)}
+        res = shared_state_mutations(fn, pred, scope=tree)
+        for node, desc in res:
+            root = desc.split("`")[-2] if "`" in desc else ""
+            name = root.split("(")[0].split(".")[-1]
+            rec = (fn, node, desc.replace("the stored", "the memoised result"))
+            if name in ambiguous or name in shadow:
+                out.undecided.append(rec + (f"`{name}` is also defined without a cache decorator / rebound locally: which one is called is not followed",))
+            else:
+                out.append(rec)
+        for node, desc, why in res.undecided:
+            out.undecided.append((fn, node, desc.replace("the stored", "the memoised result"), why))
     return memo, out
 
 
@@ -302,20 +1353,42 @@ def reader(n):
     t = list(table(n))
     t.pop(0)
     return t
+def slicer(n):
+    t = table(n)[1:]
+    t.pop(0)
+    t[0] = 5
+    return t
 """
 
 
 def memo_selftest():
     memo, out = memoised_result_mutations(ast.parse(_MEMO_SELFTEST))
-    return memo == {"table"} and [f.name for f, _, _ in out] == ["user"]
+    return memo == {"table"} and [f.name for f, _, _ in out] == ["user"] and not out.undecided
 
 
+# ======================================================================================================================
+# G5: values kept between calls under a guard
+# ======================================================================================================================
 def stale_cache_keys(fn: ast.FunctionDef):
     """G-cache-key: `if <guard>: <recompute self.X from parameters>` keeps self.X from the previous call when the
     guard is false, so the guard must mention every parameter the recomputed value depends on.
-    -> [(if node, attribute, parameters missing from the guard)]"""
-    params = {a.arg for a in fn.args.args + fn.args.kwonlyargs if a.arg != "self"}
-    out = []
+    -> Findings [(if node, attribute, parameters missing from the guard)]; `.undecided`: [(if node, attribute, missing, reason)]
+
+    AUDIT - "a later call with the same guard value and another <p> reuses the previous value" assumes
+      (K1) the guard's value is a function of the parameters it mentions and of remembered keys only: the test is built from
+           parameters, constants, comparisons / and / or / not, locals computed from parameters (expanded), and attributes of self
+           that the guarded block sets from parameters (the remembered keys).  A call in the test, another attribute of self (a
+           validity flag that other code may reset when <p> changes), a local that is not followed -> UNDECIDED;
+      (K2) when the guard is false the value of the previous call is what is read: no else branch (checked), the attribute is read
+           outside the guarded block (checked) and is not stored anywhere else in the method (else UNDECIDED);
+      (K3) nothing else invalidates on <p>: no other `if` of the method whose test mentions <p> stores the attribute or one of the
+           remembered keys (else UNDECIDED)."""
+    params = {a.arg for a in fn.args.args + fn.args.kwonlyargs + getattr(fn.args, "posonlyargs", []) if a.arg != "self"}
+    if fn.args.vararg is not None:
+        params.add(fn.args.vararg.arg)
+    if fn.args.kwarg is not None:
+        params.add(fn.args.kwarg.arg)
+    out = Findings()
 
     def pnames(e):
         return {n.id for n in ast.walk(e) if isinstance(n, ast.Name) and n.id in params}
@@ -327,13 +1400,58 @@ def stale_cache_keys(fn: ast.FunctionDef):
             return t.attr
         return None
 
+    # locals of the method: name -> list of value expressions (None for a store that is not a plain assignment)
+    local_defs: dict[str, list] = {}
+    for n in ast.walk(fn):
+        if isinstance(n, ast.Assign):
+            for t in n.targets:
+                if isinstance(t, ast.Name):
+                    local_defs.setdefault(t.id, []).append(n.value)
+                else:
+                    for x in ast.walk(t):
+                        if isinstance(x, ast.Name) and isinstance(x.ctx, ast.Store):
+                            local_defs.setdefault(x.id, []).append(None)
+        elif isinstance(n, ast.Name) and isinstance(n.ctx, ast.Store) and not isinstance(parent(n), ast.Assign):
+            local_defs.setdefault(n.id, []).append(None)
+
+    def guard_params(test, block_keys):
+        """(parameters the guard's value depends on, reason why that set is not established or None)"""
+        gp, why = set(), None
+        seen = set()
+
+        def visit(e, depth=0):
+            nonlocal why
+            for n in ast.walk(e):
+                if isinstance(n, ast.Call):
+                    f = n.func
+                    if not (isinstance(f, ast.Name) and f.id in ("abs", "len", "float", "int", "tuple", "id", "round", "min", "max", "bool", "isinstance")) and \
+                            not (isinstance(f, ast.Attribute) and isinstance(f.value, ast.Name) and f.value.id in _NP):
+                        why = why or f"the guard calls `{src(f)}`: what its value depends on is not followed"
+                elif isinstance(n, ast.Attribute) and isinstance(n.value, ast.Name) and n.value.id == "self" and isinstance(n.ctx, ast.Load):
+                    if n.attr not in block_keys and not isinstance(parent(n), ast.Call):
+                        why = why or (f"the guard reads `self.{n.attr}`, which the guarded block does not set from the arguments: other code may "
+                                      "reset it when an argument changes")
+                elif isinstance(n, ast.Name) and isinstance(n.ctx, ast.Load):
+                    if n.id in params:
+                        gp.add(n.id)
+                    elif n.id in local_defs and n.id not in seen:
+                        seen.add(n.id)
+                        for v in local_defs[n.id]:
+                            if v is None or depth > 3:
+                                why = why or f"the guard reads the local `{n.id}`, whose value is not followed"
+                            else:
+                                visit(v, depth + 1)
+                elif isinstance(n, (ast.Lambda, ast.ListComp, ast.GeneratorExp, ast.NamedExpr, ast.Await, ast.Starred)):
+                    why = why or f"the guard contains `{src(n)[:40]}`: not followed"
+        visit(test)
+        return gp, why
+
     for iff in ast.walk(fn):
         if not isinstance(iff, ast.If) or iff.orelse:
             continue
         # the guard compares against remembered state
         if not any(isinstance(n, ast.Attribute) and isinstance(n.value, ast.Name) and n.value.id == "self" for n in ast.walk(iff.test)):
             continue
-        gp = pnames(iff.test)
         # locals computed inside the guarded block from parameters
         local_dep = {}
         writes = []
@@ -342,15 +1460,16 @@ def stale_cache_keys(fn: ast.FunctionDef):
                 if isinstance(n, ast.Assign):
                     dep = pnames(n.value) | {d for x in ast.walk(n.value) if isinstance(x, ast.Name) for d in local_dep.get(x.id, ())}
                     for t in n.targets:
-                        a = self_attr(t)
-                        if a:
-                            writes.append((a, dep))
-                        elif isinstance(t, ast.Name):
-                            local_dep[t.id] = dep
+                        for el in (t.elts if isinstance(t, (ast.Tuple, ast.List)) else [t]):
+                            a = self_attr(el)
+                            if a:
+                                writes.append((a, dep))
+                            elif isinstance(el, ast.Name):
+                                local_dep[el.id] = dep
                 elif isinstance(n, ast.AugAssign):
                     a = self_attr(n.target)
                     if a:
-                        writes.append((a, pnames(n.value)))
+                        writes.append((a, pnames(n.value) | {d for x in ast.walk(n.value) if isinstance(x, ast.Name) for d in local_dep.get(x.id, ())}))
                 elif isinstance(n, ast.Call):
                     for k in n.keywords:
                         if k.arg == "out" and self_attr(k.value):
@@ -358,15 +1477,41 @@ def stale_cache_keys(fn: ast.FunctionDef):
                             for x in list(n.args) + [kk.value for kk in n.keywords if kk.arg != "out"]:
                                 dep |= pnames(x) | {d for y in ast.walk(x) if isinstance(y, ast.Name) for d in local_dep.get(y.id, ())}
                             writes.append((self_attr(k.value), dep))
+        block_keys = {a for a, dep in writes}
+        gp0 = pnames(iff.test)
+        gp, gwhy = guard_params(iff.test, block_keys)
+        in_iff = {id(x) for x in ast.walk(iff)}
         for a, dep in writes:
             # the remembered key itself (self._last = c) is no cached value
             missing = dep - gp
             if missing and dep != gp and not (len(dep) == 1 and dep <= gp):
                 # only values read again outside the guarded block are caches
                 used_outside = any(isinstance(n, ast.Attribute) and n.attr == a and isinstance(n.value, ast.Name) and n.value.id == "self"
-                                   and not any(n is x for x in ast.walk(iff)) for n in ast.walk(fn))
-                if used_outside:
+                                   and id(n) not in in_iff for n in ast.walk(fn))
+                if not used_outside:
+                    continue
+                why = gwhy
+                # (K2) stored elsewhere in the method as well
+                if why is None and any(isinstance(n, ast.Attribute) and n.attr == a and isinstance(n.value, ast.Name) and n.value.id == "self"
+                                       and isinstance(n.ctx, (ast.Store, ast.Del)) and id(n) not in in_iff for n in ast.walk(fn)):
+                    why = f"self.{a} is also stored outside the guarded block: which value is read when the guard is false is not followed"
+                if why is None and any(isinstance(n, ast.Subscript) and isinstance(n.ctx, ast.Store) and self_attr(n) == a and id(n) not in in_iff
+                                       for n in ast.walk(fn)):
+                    why = f"self.{a} is also filled outside the guarded block: which value is read when the guard is false is not followed"
+                # (K3) another test on the missing parameter that resets the cache or a key
+                if why is None:
+                    for other in ast.walk(fn):
+                        if isinstance(other, ast.If) and other is not iff and (pnames(other.test) & missing) and id(other) not in in_iff:
+                            st_attrs = {self_attr(n) for b_ in other.body + other.orelse for n in ast.walk(b_)
+                                        if isinstance(n, (ast.Attribute, ast.Subscript)) and isinstance(n.ctx, (ast.Store, ast.Del))}
+                            if st_attrs & (block_keys | {a}) or any(isinstance(n, ast.Call) for b_ in other.body + other.orelse for n in ast.walk(b_)):
+                                why = (f"`if {src(other.test)[:50]}` (line {other.lineno}) tests {sorted(pnames(other.test) & missing)} and "
+                                       "changes remembered state: it may invalidate the value")
+                                break
+                if why is None:
                     out.append((iff, a, sorted(missing)))
+                else:
+                    out.undecided.append((iff, a, sorted(missing), why))
     return out
 
 
@@ -383,14 +1528,31 @@ class A:
             self._last = c
             self._lastdt = dt
         use(self._feet)
+    def keyed(self, f, c, dt):
+        key = (c, dt)
+        if key != self._last:
+            self._feet[:] = self._pts - c * dt
+            self._last = key
+        use(self._feet)
+    def flagged(self, f, c, dt):
+        if not self._valid or c != self._last:
+            self._feet[:] = self._pts - c * dt
+            self._last = c
+        use(self._feet)
 """
 
 
 def cache_selftest():
     cls = ast.parse(_CACHE_SELFTEST).body[0]
+    for n in ast.walk(cls):
+        for ch in ast.iter_child_nodes(n):
+            ch._parent = n
     a = stale_cache_keys(cls.body[0])
     b = stale_cache_keys(cls.body[1])
-    return len(a) == 1 and a[0][1] == "_feet" and a[0][2] == ["dt"] and not b
+    c = stale_cache_keys(cls.body[2])
+    d = stale_cache_keys(cls.body[3])
+    return len(a) == 1 and a[0][1] == "_feet" and a[0][2] == ["dt"] and not a.undecided and not b and not b.undecided \
+        and not c and not c.undecided and not d and len(d.undecided) == 1
 
 
 def check_cache_keys(chk, rel, cls_name):
@@ -400,12 +1562,18 @@ def check_cache_keys(chk, rel, cls_name):
     cls = chk.mod(rel).cls(cls_name)
     n = 0
     for m in [st for st in cls.body if isinstance(st, ast.FunctionDef)]:
-        for iff, a, missing in stale_cache_keys(m):
+        res = stale_cache_keys(m)
+        for iff, a, missing in res:
             n += 1
+            # AUDIT: assumptions K1-K3 of stale_cache_keys, established there
             chk.ob("G5-cache-key", iff, f"self.{a} recomputed only if {src(iff.test)[:60]}", False,
                    f"`self.{a}` is recomputed from the arguments only when `{src(iff.test)}`, but it also depends on {missing}: a later call "
                    f"with the same guard value and another {'/'.join(missing)} reuses the value of the previous call",
                    file=rel, func=f"{cls_name}.{m.name}")
+        for iff, a, missing, why in res.undecided:
+            chk.ob("G5-cache-key", iff, f"self.{a} recomputed only if {src(iff.test)[:60]}", None,
+                   f"`self.{a}` is recomputed from the arguments only when `{src(iff.test)}` and also depends on {missing}; {why}: "
+                   "cannot decide that a stale value is reused", file=rel, func=f"{cls_name}.{m.name}")
     chk.ob("G5-cache-key", cls, f"{cls_name}: values kept between calls", n == 0,
            "no value remembered across calls is reused under a guard that ignores an argument it depends on" if n == 0 else
            f"{n} remembered value(s) reused under an incomplete guard", file=rel, func=cls_name,
